@@ -95,6 +95,24 @@ class RawIO(io.RawIOBase):
     def tell(self): return self._r._p
 
 
+class CountingBytesIO(io.BytesIO):
+    """io.BytesIO that notices a caller reading nothing over and over at the end"""
+    _empty = 0
+    def _seen(self, k, n):
+        if k == 0 and n > 0:
+            self._empty += 1
+            if self._empty > 64:
+                raise Spin()
+    def readinto(self, buf):
+        k = super().readinto(buf)
+        self._seen(k, len(buf))
+        return k
+    def read(self, n=-1):
+        out = super().read(n)
+        self._seen(len(out), 1 if n is None or n < 0 else n)
+        return out
+
+
 WATCHDOG = r'''
 import io, sys
 from nobodd.transfer import copy_bytes
@@ -117,7 +135,7 @@ def watchdog_case(n, a, b, timeout=3):
 
 def make_source(kind, data, caps):
     if kind == 'bytesio':
-        return io.BytesIO(data), True, []
+        return CountingBytesIO(data), True, []
     if kind == 'buffered':
         return io.BufferedReader(RawIO(data, caps), 4096), True, []
     if kind == 'raw_ri':
